@@ -183,6 +183,41 @@ theorem strict_stale_history (evs : List BookEv) (now lc : Int) (commit : Nat)
     · rw [hA, hla]; rfl
     · rw [hU u a hla]; exact hl
 
+/-- the index of the last entry applied ONE BY ONE (what the two times describe) -/
+def lastApplyIdx (init : Option Nat) : List BookEv → Option Nat
+  | [] => init
+  | .apply i _ _ :: rest => lastApplyIdx (some i) rest
+  | .restore _ :: rest => lastApplyIdx init rest
+  | .fastOpen _ :: rest => lastApplyIdx none rest
+
+/-- The stronger reading — "the two times always describe the entry `fsmIdx` points at" — kept
+visible. It is FALSE: `fsmRestore` (snapshot install) moves `fsmIdx` to the snapshot index
+and leaves the times of the last entry that was applied one by one. -/
+def strict_verdict_full : Prop :=
+  ∀ evs : List BookEv, lastApplyIdx none evs ≠ none → lastApplyIdx none evs = some (Book.run {} evs).fsmIdx
+
+theorem strict_verdict_full_witness : ¬ strict_verdict_full := by
+  intro h
+  have := h [.apply 5 20 10, .restore 9] (by decide)
+  revert this; decide
+
+/-- ... and holds for histories that end with an entry applied one by one -/
+theorem strict_verdict_partial (evs : List BookEv) (i : Nat) (u a : Int) :
+    lastApplyIdx none (evs ++ [.apply i u a]) = some (Book.run {} (evs ++ [.apply i u a])).fsmIdx := by
+  have h1 : ∀ (l : List BookEv) (init : Option Nat), lastApplyIdx init (l ++ [.apply i u a]) = some i := by
+    intro l
+    induction l with
+    | nil => intro init; rfl
+    | cons e l ih => intro init; cases e <;> simp [lastApplyIdx, ih]
+  rw [h1]
+  simp [Book.run, List.foldl_append, Book.step, Book.apply]
+
+/-! The property's wording is about "its last applied ENTRY": `strict_stale_history` shows the
+verdict is exactly about that entry for every history, so a strict read after a snapshot
+install is judged on the last entry that was applied one by one (on none at all for a node
+that came up from a snapshot: it is then served). This is recorded as a modelling remark, not
+as a finding: no input makes the documented rule fail. -/
+
 /-! ### weak and auto -/
 
 /-- A read that is served locally at effective level WEAK was served by a node that
